@@ -33,7 +33,7 @@ fn pm_of(code: usize, n: usize) -> (PartialModel, Vec<Option<bool>>) {
         });
         c /= 3;
     }
-    (PartialModel::from_assignments(&a), a)
+    (crate::props::wparams::build_model(&a, code), a)
 }
 
 const WREAL: [(u32, u32); 3] = [(1, 1), (1, 2), (3, 5)];
